@@ -482,6 +482,14 @@ func (s *Store) GC(ctx context.Context) error {
 	}
 	reachableNodes := s.graph.DigestSet()
 
+	// persist the rebuilt index before removing any blob, so that index.json
+	// never refers to content that is swept below
+	if s.AutoSaveIndex {
+		if err := s.saveIndex(); err != nil {
+			return err
+		}
+	}
+
 	// clean up garbage blobs in the storage
 	rootpath := filepath.Join(s.root, ocispec.ImageBlobsDir)
 	algDirs, err := os.ReadDir(rootpath)
